@@ -736,6 +736,9 @@ class NPFacade(types.ModuleType):
     def zeros_like(self, a, dtype=None, **kw):
         if dtype in (bool, int):
             return _np.zeros(_np.shape(a), dtype=dtype).view(SymArray)
+        if dtype is None and isinstance(a, _np.ndarray) and a.dtype.kind in 'iub':
+            # keep integer / boolean dtypes (storing a symbolic real there then fails loudly instead of being silently exact)
+            return _np.zeros(a.shape, dtype=a.dtype).view(SymArray)
         return self._filled(_np.shape(a), 0)
 
     def ones_like(self, a, dtype=None, **kw):
